@@ -742,6 +742,10 @@ snarf_dt(const char *eof, const char *vp, const char *const ep)
 
 	if (UNLIKELY(on == NULL)) {
 		return res;
+	} else if (UNLIKELY(res.m > 12U || res.d > 31U)) {
+		/* that's digits but no date, months and days
+		 * go into tables further down the road */
+		return echs_nul_instant();
 	}
 	while (*eof++ == ';') {
 		/* we've got a field modifier */
@@ -818,6 +822,9 @@ snarf_dtlst(const char *eof, const char *vp, const char *const ep)
 		}
 		in = dt_strp(vp, &on, eod - vp);
 		if (UNLIKELY(echs_instant_0_p(in) || on == NULL)) {
+			continue;
+		} else if (UNLIKELY(in.m > 12U || in.d > 31U)) {
+			/* no date */
 			continue;
 		}
 		/* attach zone (if any) and only if there's no zone indicator */
